@@ -473,8 +473,12 @@ def blockTrace (steps : List Step) : List (Nat × Nat × RxObs) := Id.run do
   let mut glob : Glob := {}
   let mut acc : Array (Nat × Nat × RxObs) := #[]
   let mut idx := 0
+  let mut allocFault := false        -- an allocation-fault schedule is active (from `fault malloc=..` / `fault mallocall` to `fault clear`)
   for st in steps do
     match st.op with
+    | "fault" :: rest =>
+      if rest == ["clear"] then allocFault := false
+      else if rest.any (fun t => t.startsWith "malloc") then allocFault := true
     | "iface" :: i :: attrs =>
       match parseDec i with
       | some I =>
@@ -512,7 +516,7 @@ def blockTrace (steps : List Step) : List (Nat × Nat × RxObs) := Id.run do
             | ["txfail", _, h] => (parseHex h).map (FxObs.tx false)
             | ["tx", _] => some (FxObs.tx true [])
             | _ => none)
-          acc := acc.push (idx, I, { cfg := rec.cfg, glob := glob, frame := seen, fx := fx, live := st.live, bytes := st.bytes })
+          acc := acc.push (idx, I, { cfg := rec.cfg, glob := glob, frame := seen, fx := fx, live := st.live, bytes := st.bytes, allocFault := allocFault })
         | none => pure ()
       | _, _ => pure ()
     | _ => pure ()
@@ -551,7 +555,7 @@ def checkBlock (name : String) (pred : List Nat → List RxObs → Bool) (steps 
 def checkC02 := checkBlock "C02 (well-formed, solicited, bounded transmits)" (fun _ t => holdsC02 t)
 def checkC03 := checkBlock "C03 (Hello answering an accepted Discover)" (fun _ t => holdsC03 t)
 def checkC04 := checkBlock "C04 (Hello properties = interface attributes)" (fun _ t => holdsC04 t)
-def checkC05 := checkBlock "C05 (single mapper arbitration)" holdsC05
+def checkC05 := checkBlock "C05 (single mapper arbitration)" holdsC05F
 def checkC06 := checkBlock "C06 (Emit execution)" holdsC06
 def checkC07 := checkBlock "C07 (every observation reported once)" holdsC07
 def checkC08 := checkBlock "C08 (large property retrieval)" holdsC08
